@@ -874,7 +874,7 @@ def _field(name, base):
             return _field(name, base[1])
         if base[0] == "bin" and base[1].endswith("WithOverflow"):
             if name in (0, "0"):
-                return ("bin", base[1][:-len("WithOverflow")], base[2], base[3])
+                return _binop(base[1][:-len("WithOverflow")], base[2], base[3])
             return ("c", 0, "bool")
     return ("field", name, base)
 
